@@ -66,8 +66,16 @@ int compint_to_size(zckCtx *zck, size_t *val, const char *compint,
             done = true;
         }
         /* There *must* be a more elegant way of doing c * 128**count */
-        for(int f=0; f<count; f++)
+        for(int f=0; f<count; f++) {
+            /* Fail if the number doesn't fit in a size_t */
+            if(c > SIZE_MAX / 128) {
+                set_fatal_error(zck, "Number too large");
+                *length -= count;
+                *val = 0;
+                return false;
+            }
             c *= 128;
+        }
         *val += c;
         (*length) = (*length) + 1;
         count++;
